@@ -203,6 +203,18 @@ CLAIMED = {
             'in-process fake transport (models courier\'s observable contract, not gRPC); real OS threads/asyncio with a 90 s '
             'watchdog and reruns before reporting; exact aggregates.',
             '§2.3, §2.4, §3 C16'),
+    'C06': ('fault_enumeration',
+            'generated fault plans (per worker, per remote method, per call index: ok / deadline before / deadline after / death / graceful death / restart; application errors; exhausted budgets) injected by an in-process transport into real orchestrators; exactly-once / at-least-once / aggregate-equality oracles',
+            'as_completed (1..8 tasks) and sharded_pipelines_as_iterator (generated pipelines, 1..3 prefetching workers, 1..6 shards, '
+            'batch/prefetch sizes) run on real servers and pools while the transport applies a generated fault plan to the i-th call '
+            'of each method on every worker but one: deadline exceeded before or after the handler ran, abrupt death, graceful '
+            'death, restart as a fresh process (generator and object cache lost). Oracles: each task result exactly once; every '
+            'output batch at least once and nothing invented; exactly one final AggregateResult equal to the fault-free in-process '
+            'aggregate (every shard state merged exactly once); application errors surface as errors; an exhausted retry budget '
+            'raises TimeoutError; no worker stays acquired; a watchdog catches hangs.',
+            'the fake transport fails calls to unreachable/dead servers immediately with code 4; one worker is fault-free; real OS '
+            'threads with a 120 s watchdog, failures re-run before being reported.',
+            '§2.3, §2.4, §3 C06'),
 }
 
 PENDING_REASON = 'check not built yet in this session (work in progress; see DESIGN.md §9 build order) - not claimed until its check exists'
